@@ -8,6 +8,7 @@ from props import c01, c02, c03, c05, c06, c08, c10
 
 PROP = 'C18'
 BIN = 'c18'
+DENSE = {'quick': {8: 24, 16: 24, 32: 24, 64: 24}, 'thorough': {8: 96, 16: 96, 32: 96, 64: 96}}   # bounded by the build time of this driver
 SIG = {'int': 'xxx', 'root': 'xd', 'prim': 'xd', 'num': 'sd'}
 encode = default_encode(SIG)
 decode = default_decode(SIG)
